@@ -322,4 +322,239 @@ theorem compare_padded_cont (a t r' : List UInt8) (s : Nat) (l : UInt8) (ha : a.
         · simp only [h1, h2, if_false]
           exact ih ts s' (by simpa using ha) (by simpa using ht)
 
+
+theorem encSched_ne_nil (k : Nat) (v : List UInt8) : encSched k v ≠ [] := by
+  rw [encSched]; split <;> simp
+
+theorem u8_ofNat_lt_cont {n : Nat} (h : n ≤ 32) : UInt8.ofNat n < blockContinuation := by
+  have : blockContinuation = UInt8.ofNat 255 := rfl
+  rw [this]; exact u8_ofNat_lt (by omega) (by omega)
+
+/-- a value ending in block `k` against a value continuing past block `k` -/
+theorem encSched_last_cont (k : Nat) (a b : List UInt8) (ha : a.length ≤ schedSize k) (hb : ¬ b.length ≤ schedSize k) :
+    cmpStrict (encSched k a) (encSched k b) = some (compareBytes a b) := by
+  have hs := schedSize_le k
+  rw [encSched.eq_1 k a, encSched.eq_1 k b, if_pos ha, if_neg hb]
+  have e1 : ∀ X : List UInt8, List.take (schedSize k) b ++ blockContinuation :: X
+      = (List.take (schedSize k) b ++ [blockContinuation]) ++ X := by intro X; simp
+  rw [e1, ← List.append_nil (a ++ zeros (schedSize k - a.length) ++ [UInt8.ofNat a.length])]
+  have hlen : (a ++ zeros (schedSize k - a.length) ++ [UInt8.ofNat a.length]).length
+      = (List.take (schedSize k) b ++ [blockContinuation]).length := by
+    simp [zeros]; omega
+  have hcmp := compare_padded_cont a (b.take (schedSize k)) (b.drop (schedSize k)) (schedSize k)
+    (UInt8.ofNat a.length) ha (by simp; omega) (u8_ofNat_lt_cont (by omega))
+    (by intro h; have := congrArg List.length h; simp at this; omega)
+  rw [List.take_append_drop] at hcmp
+  rw [cmpStrict_append_of_cmpStrict _ _ (by rw [cmpStrict_eqlen hlen, hcmp])]
+  have hne : compareBytes a b ≠ .eq := by
+    intro h; have := compareBytes_eq_iff.mp h; subst this; omega
+  simp [hne]
+
+theorem encSched_cmp (n : Nat) : ∀ (k : Nat) (a b : List UInt8), a.length ≤ n →
+    cmpStrict (encSched k a) (encSched k b) = some (compareBytes a b) := by
+  induction n with
+  | zero =>
+    intro k a b ha
+    have hs := schedSize_pos k
+    by_cases hb : b.length ≤ schedSize k
+    · rw [encSched.eq_1 k a, encSched.eq_1 k b, if_pos (by omega), if_pos hb]
+      rw [cmpStrict_eqlen (by simp [zeros]; omega)]
+      have := compare_padded a b (schedSize k) 0 (by omega) hb (by have := schedSize_le k; omega)
+      simpa using this
+    · exact encSched_last_cont k a b (by omega) hb
+  | succ n ih =>
+    intro k a b ha
+    have hs := schedSize_pos k
+    by_cases ha' : a.length ≤ schedSize k
+    · by_cases hb : b.length ≤ schedSize k
+      · rw [encSched.eq_1 k a, encSched.eq_1 k b, if_pos ha', if_pos hb]
+        rw [cmpStrict_eqlen (by simp [zeros]; omega)]
+        have := compare_padded a b (schedSize k) 0 ha' hb (by have := schedSize_le k; omega)
+        simpa using this
+      · exact encSched_last_cont k a b ha' hb
+    · by_cases hb : b.length ≤ schedSize k
+      · rw [cmpStrict_swap, encSched_last_cont k b a hb ha', ← compareBytes_swap]; simp
+      · rw [encSched.eq_1 k a, encSched.eq_1 k b, if_neg ha', if_neg hb]
+        have e1 : ∀ (v X : List UInt8), List.take (schedSize k) v ++ blockContinuation :: X
+            = (List.take (schedSize k) v ++ [blockContinuation]) ++ X := by intro v X; simp
+        rw [e1 a, e1 b]
+        have hlen : (List.take (schedSize k) a ++ [blockContinuation]).length
+            = (List.take (schedSize k) b ++ [blockContinuation]).length := by
+          simp; omega
+        rw [cmpStrict_append_of_cmpStrict _ _ (cmpStrict_eqlen hlen)]
+        rw [ih (k + 1) (a.drop (schedSize k)) (b.drop (schedSize k)) (by simp; omega)]
+        have hab : compareBytes a b = (compareBytes (a.take (schedSize k)) (b.take (schedSize k))).then
+            (compareBytes (a.drop (schedSize k)) (b.drop (schedSize k))) := by
+          rw [← compareBytes_append_eqlen _ _ (by simp; omega), List.take_append_drop, List.take_append_drop]
+        have h2 : compareBytes (List.take (schedSize k) a ++ [blockContinuation]) (List.take (schedSize k) b ++ [blockContinuation])
+            = compareBytes (a.take (schedSize k)) (b.take (schedSize k)) := by
+          rw [compareBytes_append_eqlen _ _ (by simp; omega)]
+          simp [compareBytes]
+        rw [h2, hab]
+        cases compareBytes (a.take (schedSize k)) (b.take (schedSize k)) <;> simp [Ordering.then]
+
+
+theorem miniBlockSize_eq : miniBlockSize = 8 := by decide
+theorem blockSize_eq : blockSize = 32 := by decide
+theorem miniBlockCount_eq : miniBlockCount = 4 := by decide
+
+theorem schedSize_mini {k : Nat} (h : k < 4) : schedSize k = 8 := by
+  unfold schedSize; rw [miniBlockCount_eq, if_pos h, miniBlockSize_eq]
+theorem schedSize_full {k : Nat} (h : 4 ≤ k) : schedSize k = 32 := by
+  unfold schedSize; rw [miniBlockCount_eq, if_neg (by omega), blockSize_eq]
+
+theorem encodeBlocks_ne_nil (s : Nat) (v : List UInt8) : encodeBlocks s v ≠ [] := by
+  rw [encodeBlocks]; split <;> simp
+
+/-- within the first `BLOCK_SIZE` bytes `encode_blocks::<MINI_BLOCK_SIZE>` is the schedule -/
+theorem encodeBlocks_mini (j : Nat) : ∀ (k : Nat) (v : List UInt8), k + j = 4 → 1 ≤ j → v.length ≤ 8 * j →
+    encodeBlocks 8 v = encSched k v := by
+  induction j with
+  | zero => intro k v _ h; omega
+  | succ j ih =>
+    intro k v hk _ hv
+    have hs : schedSize k = 8 := schedSize_mini (by omega)
+    rw [encodeBlocks.eq_1, encSched.eq_1, hs]
+    by_cases h8 : v.length ≤ 8
+    · simp [h8]
+    · have : ¬ ((8 : Nat) = 0 ∨ v.length ≤ 8) := by omega
+      rw [dif_neg this, if_neg h8]
+      rw [ih (k + 1) (v.drop 8) (by omega) (by omega) (by simp; omega)]
+
+/-- past the first `BLOCK_SIZE` bytes `encode_blocks::<BLOCK_SIZE>` is the schedule -/
+theorem encodeBlocks_full (n : Nat) : ∀ (k : Nat) (v : List UInt8), 4 ≤ k → v.length ≤ n →
+    encodeBlocks 32 v = encSched k v := by
+  induction n with
+  | zero =>
+    intro k v hk hv
+    rw [encodeBlocks.eq_1, encSched.eq_1, schedSize_full hk]
+    simp [show v.length ≤ 32 by omega]
+  | succ n ih =>
+    intro k v hk hv
+    rw [encodeBlocks.eq_1, encSched.eq_1, schedSize_full hk]
+    by_cases h : v.length ≤ 32
+    · simp [h]
+    · have : ¬ ((32 : Nat) = 0 ∨ v.length ≤ 32) := by omega
+      rw [dif_neg this, if_neg h, ih (k + 1) (v.drop 32) (by omega) (by simp; omega)]
+
+/-- full mini-blocks whose final length byte is overwritten by the continuation byte,
+followed by more data, are the schedule of the longer value -/
+theorem encodeBlocks_mini_cont (j : Nat) : ∀ (k : Nat) (v w : List UInt8), k + j = 4 → 1 ≤ j → v.length = 8 * j →
+    w ≠ [] →
+    (encodeBlocks 8 v).dropLast ++ [blockContinuation] ++ encSched 4 w = encSched k (v ++ w) := by
+  induction j with
+  | zero => intro k v w _ h; omega
+  | succ j ih =>
+    intro k v w hk _ hv hw
+    have hs : schedSize k = 8 := schedSize_mini (by omega)
+    have hwl : 0 < w.length := List.length_pos_iff.mpr hw
+    rw [encodeBlocks.eq_1, encSched.eq_1 k, hs]
+    have hvw : ¬ (v ++ w).length ≤ 8 := by simp; omega
+    rw [if_neg hvw]
+    by_cases hj : j = 0
+    · subst hj
+      have h8 : v.length = 8 := by omega
+      rw [dif_pos (by omega)]
+      simp only [h8, Nat.sub_self, zeros, List.replicate_zero, List.append_nil]
+      rw [List.dropLast_concat, List.take_append_of_le_length (by omega), List.drop_append_of_le_length (by omega)]
+      rw [List.take_of_length_le (by omega), List.drop_of_length_le (by omega)]
+      have : k + 1 = 4 := by omega
+      rw [this]; simp
+    · have : ¬ ((8 : Nat) = 0 ∨ v.length ≤ 8) := by omega
+      rw [dif_neg this]
+      have hne := encodeBlocks_ne_nil 8 (v.drop 8)
+      rw [show List.take 8 v ++ blockContinuation :: encodeBlocks 8 (List.drop 8 v)
+            = (List.take 8 v ++ [blockContinuation]) ++ encodeBlocks 8 (List.drop 8 v) by simp]
+      rw [List.dropLast_append_of_ne_nil hne]
+      rw [List.take_append_of_le_length (by omega), List.drop_append_of_le_length (by omega)]
+      rw [← ih (k + 1) (v.drop 8) w (by omega) (by omega) (by simp; omega) hw]
+      simp
+
+theorem encodeNonEmpty_eq (val : List UInt8) : encodeNonEmpty val = nonEmptySentinel :: encSched 0 val := by
+  unfold encodeNonEmpty
+  rw [miniBlockSize_eq, blockSize_eq]
+  by_cases h : val.length ≤ 32
+  · rw [if_pos h, encodeBlocks_mini 4 0 val rfl (by omega) (by omega)]
+  · rw [if_neg h]
+    have hw : val.drop 32 ≠ [] := by
+      intro h'; have := congrArg List.length h'; simp at this; omega
+    rw [encodeBlocks_full _ 4 (val.drop 32) (Nat.le_refl _) (Nat.le_refl _)]
+    rw [encodeBlocks_mini_cont 4 0 (val.take 32) (val.drop 32) rfl (by omega) (by simp; omega) hw]
+    rw [List.take_append_drop]
+
+
+theorem cmpStrict_cons_lt {x y : UInt8} (xs ys : List UInt8) (h : x < y) : cmpStrict (x :: xs) (y :: ys) = some .lt := by
+  simp [cmpStrict, h]
+
+theorem cmpStrict_cons_gt {x y : UInt8} (xs ys : List UInt8) (h : y < x) : cmpStrict (x :: xs) (y :: ys) = some .gt := by
+  have : ¬ x < y := fun h' => by rw [UInt8.lt_iff_toNat_lt] at h h'; omega
+  simp [cmpStrict, h, this]
+
+theorem cmpStrict_cons_same (x : UInt8) (xs ys : List UInt8) : cmpStrict (x :: xs) (x :: ys) = cmpStrict xs ys := by
+  simp [cmpStrict]
+
+theorem encodeVar_cons (o : SortOptions) (x : UInt8) (xs : List UInt8) :
+    encodeVar o (some (x :: xs)) = invIf o.descending (nonEmptySentinel :: encSched 0 (x :: xs)) := by
+  simp [encodeVar, encodeNonEmpty_eq]
+
+/-- variable-length field: strict byte order of encodings = order of values -/
+theorem encodeVar_cmp (o : SortOptions) (a b : Option (List UInt8)) :
+    cmpStrict (encodeVar o a) (encodeVar o b) = some (compareVal o compareBytes a b) := by
+  obtain ⟨d, nf⟩ := o
+  cases a with
+  | none =>
+    cases b with
+    | none => rw [cmpStrict_eq_iff.mpr rfl]; rfl
+    | some b =>
+      cases b with
+      | nil => cases d <;> cases nf <;> decide
+      | cons y ys =>
+        rw [encodeVar_cons]
+        cases d <;> cases nf <;>
+          simp only [encodeVar, invIf, inv, List.map_cons, compareVal, if_true, if_false, Bool.false_eq_true] <;>
+          first
+            | exact cmpStrict_cons_lt _ _ (by decide)
+            | exact cmpStrict_cons_gt _ _ (by decide)
+  | some a =>
+    cases b with
+    | none =>
+      cases a with
+      | nil => cases d <;> cases nf <;> decide
+      | cons x xs =>
+        rw [encodeVar_cons]
+        cases d <;> cases nf <;>
+          simp only [encodeVar, invIf, inv, List.map_cons, compareVal, if_true, if_false, Bool.false_eq_true] <;>
+          first
+            | exact cmpStrict_cons_lt _ _ (by decide)
+            | exact cmpStrict_cons_gt _ _ (by decide)
+    | some b =>
+      cases a with
+      | nil =>
+        cases b with
+        | nil => rw [cmpStrict_eq_iff.mpr rfl]; cases d <;> rfl
+        | cons y ys =>
+          rw [encodeVar_cons]
+          cases d <;>
+            simp only [encodeVar, invIf, inv, List.map_cons, compareVal, if_true, if_false, Bool.false_eq_true, compareBytes, Ordering.swap] <;>
+            first
+              | exact cmpStrict_cons_lt _ _ (by decide)
+              | exact cmpStrict_cons_gt _ _ (by decide)
+      | cons x xs =>
+        cases b with
+        | nil =>
+          rw [encodeVar_cons]
+          cases d <;>
+            simp only [encodeVar, invIf, inv, List.map_cons, compareVal, if_true, if_false, Bool.false_eq_true, compareBytes, Ordering.swap] <;>
+            first
+              | exact cmpStrict_cons_lt _ _ (by decide)
+              | exact cmpStrict_cons_gt _ _ (by decide)
+        | cons y ys =>
+          rw [encodeVar_cons, encodeVar_cons]
+          have h := encSched_cmp _ 0 (x :: xs) (y :: ys) (Nat.le_refl _)
+          have h2 : cmpStrict (nonEmptySentinel :: encSched 0 (x :: xs)) (nonEmptySentinel :: encSched 0 (y :: ys))
+              = some (compareBytes (x :: xs) (y :: ys)) := by rw [cmpStrict_cons_same, h]
+          cases d
+          · simpa [invIf, compareVal] using h2
+          · simpa [invIf, compareVal] using cmpStrict_inv h2
+
 end ArrowModel.C11
